@@ -80,6 +80,8 @@ def enc_case(dictc, ops):
             out.append([5])
         elif k == "pandas":
             out.append([6])
+        elif k == "peek":
+            out.append([7])
     return [S(dictc), out]
 
 
@@ -120,6 +122,10 @@ def run_impl(conn, dictc, ops):
                 obs.append([5, core.opt(cur.rowcount)])
             elif k == "pandas":
                 obs.append([5, [len(cur.fetch_pandas_all())]])
+            elif k == "peek":
+                # observers: they may answer anything, but must not move the cursor (Props_C05.peek_erasure)
+                _ = (cur.description, cur.sqlstate, cur.sfqid, cur.rowcount, cur.arraysize)
+                obs.append([4])
         except TypeError as e:
             obs.append([3, 1] if "No open result set" in str(e) else [3, 98, S(str(e)[:80])])
         except snowflake.connector.NotSupportedError:
@@ -144,6 +150,10 @@ def oracle(dictc, ops, obs):
             continue
         if k == "asz":
             asz = o[1]
+            continue
+        if k == "peek":
+            if ob != [4] and rows is not None:          # (before the first execute there is nothing to describe: outside the property)
+                return f"reading description/sqlstate/sfqid/rowcount raised {ob}"
             continue
         if rows is None:
             if k in ("one", "many", "all") and ob != [3, 1]:
@@ -229,8 +239,10 @@ def gen_case(rng):
             ops.append(("rowcount",))
         elif x < 0.93:
             ops.append(("pandas",))
-        else:
+        elif x < 0.96:
             ops.append(shape())
+        else:
+            ops.append(("peek",))
     return rng.random() < 0.4, ops
 
 
@@ -254,6 +266,10 @@ def main():
     n_exh = len(cases)
     for _ in range(900 if ck.tier == "quick" else 40000):
         cases.append(gen_case(ck.rng))
+    # attribute reads between the fetch calls, at every position of short sequences
+    for seq in itertools.product([("one",), ("many", 2), ("all",), ("peek",)], repeat=4):
+        if ("peek",) in seq:
+            cases.append((len(cases) % 2 == 0, [("exec", ["int"], ["A"], [[0], [1], [2]]), *seq]))
     # corpus: the F2 witness
     cases.insert(0, (False, [("exec", ["int", "int"], ["A", "A"], [[1, 2]]), ("all",)]))
     for d in (False, True):
